@@ -1,6 +1,6 @@
 #!/bin/bash
 # tools/run_seeds.sh <seed>... : every suite once per seed on /repo (false-alarm hunt)
-cd /verif
+cd "$(dirname "$0")/.."
 for sd in "$@"; do
   for p in C01 C02 C09 C12 C16; do
     s=$(date +%s); VERIF_SEED=$sd ./check $p > /tmp/rs_${sd}_$p.out 2> /tmp/rs_${sd}_$p.err; rc=$?
